@@ -134,6 +134,11 @@ Theorem C11_monitor_sound : forall v loc r, C11_ok v loc r = true ->
 Proof. exact c11_ok_sound. Qed.
 Print Assumptions C11_monitor_sound.
 
+(* history independence check used on implementation traces: equal results *)
+Theorem C11_same_result_eq : forall a b, same_result a b = true <-> a = b.
+Proof. exact same_result_eq. Qed.
+Print Assumptions C11_same_result_eq.
+
 (* lower-case-initial fields (protobuf's state/sizeCache/unknownFields) cannot
    be reached by any locator *)
 Theorem C11_unexported_irrelevant : forall path v w, erase v = erase w -> ref_keys path v = ref_keys path w.
